@@ -43,15 +43,16 @@ DumpE(o) == [groups |-> o.secs,
                                                     cb |-> IF e.cb.has THEN e.cb.t ELSE <<>>, ca |-> IF e.ca.has THEN e.ca.t ELSE <<>>]]])]
 
 \* ---------- econf_readFile ----------
-ParArgs(delim, comment) == [delim |-> delim, comment |-> IF comment = <<>> THEN <<35>> ELSE comment, python |-> FALSE, join |-> FALSE]
+ParArgs(delim, comment, py, jn) == [delim |-> delim, comment |-> IF comment = <<>> THEN <<35>> ELSE comment, python |-> py, join |-> jn]
 ObjectOfParse(st, path, delim, comment) ==
   [ents |-> EntsOfParse(st), secs |-> st.groups, path |-> path,
    d |-> IF delim = <<>> THEN 0 ELSE delim[1], c |-> IF comment = <<>> THEN 35 ELSE comment[1]]
-ReadResult(fs, path, delim, comment) ==
+ReadResultOpt(fs, path, delim, comment, py, jn) ==
   IF path \notin DOMAIN fs THEN [rc |-> "ECONF_NOFILE", obj |-> Null, errline |-> 0]
-  ELSE LET st == ParseFile(fs[path], ParArgs(delim, comment)) IN
+  ELSE LET st == ParseFile(fs[path], ParArgs(delim, comment, py, jn)) IN
        IF st.err = "ok" THEN [rc |-> "ECONF_SUCCESS", obj |-> ObjectOfParse(st, path, delim, comment), errline |-> st.line]
        ELSE [rc |-> st.err, obj |-> Null, errline |-> st.line]
+ReadResult(fs, path, delim, comment) == ReadResultOpt(fs, path, delim, comment, FALSE, FALSE)
 
 \* ---------- econf_mergeFiles on full entries (lib/mergefiles.c merge_entries, cpy_file_entry) ----------
 HasGrpE(es, g) == \E i \in 1..Len(es) : es[i].g = g
@@ -105,9 +106,10 @@ BaseName(p) == LET I == {i \in 1..Len(p) : p[i] = 47} IN IF I = {} THEN p ELSE S
 MaskedFs(K, j) == j > 1 /\ \E j2 \in (j+1)..Len(K) : BaseName(K[j2]) = BaseName(K[j])
 RECURSIVE FoldObjs(_)
 FoldObjs(os) == IF Len(os) = 1 THEN os[1] ELSE MergeObjects(FoldObjs(SubSeq(os, 1, Len(os) - 1)), os[Len(os)])
-ReadDirsResult(fs, dirs, name, sfx, delim, comment) ==
+\* the parsing options of the object (PYTHON_STYLE, JOIN_SAME_ENTRIES) apply to EVERY file of a layered read
+ReadDirsResultOpt(fs, dirs, name, sfx, delim, comment, py, jn) ==
   LET K == ConsultedFs(fs, dirs, name, sfx)
-      rs == [j \in 1..Len(K) |-> ReadResult(fs, K[j], delim, comment)]
+      rs == [j \in 1..Len(K) |-> ReadResultOpt(fs, K[j], delim, comment, py, jn)]
       bad == {j \in 1..Len(K) : rs[j].rc # "ECONF_SUCCESS"} IN
   IF K = <<>> THEN [rc |-> "ECONF_NOFILE", obj |-> Null, errfile |-> <<>>, errline |-> 0]
   ELSE IF bad # {} THEN [rc |-> rs[Min(bad)].rc, obj |-> Null, errfile |-> K[Min(bad)], errline |-> rs[Min(bad)].errline]
@@ -115,4 +117,5 @@ ReadDirsResult(fs, dirs, name, sfx, delim, comment) ==
        [rc |-> "ECONF_SUCCESS", errfile |-> K[Len(K)], errline |-> rs[Len(K)].errline,
         obj |-> IF Len(K) = 1 THEN rs[1].obj                 \* a single file keeps its own path (Dev_SingleFileKeepsPath)
                 ELSE FoldObjs([n \in 1..Len(idx) |-> rs[idx[n]].obj])]
+ReadDirsResult(fs, dirs, name, sfx, delim, comment) == ReadDirsResultOpt(fs, dirs, name, sfx, delim, comment, FALSE, FALSE)
 =============================================================================
